@@ -515,6 +515,132 @@ async def sc_eof_during_send(ctx, rng):
         await lst.aclose()
 
 
+async def sc_close_both_parked(ctx, rng):
+    """a receive() AND a send() are parked on the same stream (the usual reader task + writer task layout) and a third
+    task closes it locally: both must end promptly with ClosedResourceError, the peer must get EndOfStream, and the
+    event loop's exception handler must not be called (finding F33)"""
+    import asyncio
+    import anyio
+    name = "close_both_parked"
+    raw = ctx.family == "unix"
+    big = (8 if raw else 48) * MiB
+    params = {"big": big}
+    loop = asyncio.get_running_loop()
+    errors = []
+    old_handler = loop.get_exception_handler()
+    loop.set_exception_handler(lambda _l, c: errors.append(f"{c.get('message')}: {c.get('exception')!r}"[:300]))
+    a, b, lst = await make_pair(ctx)
+    out = {}
+    try:
+        async with anyio.create_task_group() as tg:
+            async def rcv():
+                try:
+                    await a.receive()
+                    out["receive"] = "returned data"
+                except anyio.ClosedResourceError:
+                    out["receive"] = "ClosedResourceError"
+                except Exception as e:  # noqa: BLE001
+                    out["receive"] = type(e).__name__
+
+            async def snd():
+                try:
+                    await a.send(pattern(0, big))
+                    out["send"] = "returned normally"
+                except anyio.ClosedResourceError:
+                    out["send"] = "ClosedResourceError"
+                except Exception as e:  # noqa: BLE001
+                    out["send"] = type(e).__name__
+
+            tg.start_soon(rcv)
+            tg.start_soon(snd)
+            await anyio.wait_all_tasks_blocked()
+            await anyio.sleep(0.05)
+            if "send" in out:
+                ctx.fact("close_both_parked_not_exhibited", True)
+            await a.aclose()
+            t0 = time.time()
+            while len(out) < 2 and time.time() - t0 < 5:
+                await anyio.sleep(0.01)
+            for call in ("receive", "send"):
+                if call not in out:
+                    ctx.viol(name, f"{call}() parked at a local aclose() is still blocked 5 s later (together with a parked "
+                                   f"{'send' if call == 'receive' else 'receive'}() on the same stream)", params)
+                elif out[call] != "ClosedResourceError":
+                    ctx.viol(name, f"{call}() parked at a local aclose() ended with: {out[call]} (expected ClosedResourceError)", params)
+            # the peer reads what made it into the kernel and must then see the end of the stream
+            rc = Receiver(ctx, name, b, [65536], params)
+            with anyio.move_on_after(5) as sc2:
+                try:
+                    await rc.drain()
+                except anyio.BrokenResourceError:
+                    rc.ended = "BrokenResourceError"
+            if sc2.cancelled_caught or rc.ended is None:
+                ctx.viol(name, f"the peer got no EndOfStream within 5 s of the other side's aclose() (read {rc.off} bytes): "
+                               f"the socket was not really closed", params)
+            ctx.fact("close_both_parked_peer", rc.ended)
+            tg.cancel_scope.cancel()
+    finally:
+        loop.set_exception_handler(old_handler)
+    await anyio.sleep(0.02)
+    if errors:
+        ctx.viol(name, f"the event loop's exception handler was called {len(errors)} time(s) around aclose(), e.g. {errors[0]}", params)
+    ctx.fact("close_both_parked", [out.get("receive"), out.get("send")])
+    await b.aclose()
+    if lst is not None:
+        await lst.aclose()
+
+
+async def sc_send_lost(ctx, rng, how):
+    """a send() is waiting on back-pressure when the stream is closed locally by another task / the peer resets the
+    connection: the send() must raise (Closed- resp. BrokenResourceError), never return normally: what the transport
+    had buffered is discarded (finding F34)"""
+    import anyio
+    name = f"send_lost/{how}"
+    raw = ctx.family == "unix"
+    big = (8 if raw else 48) * MiB
+    params = {"big": big, "how": how}
+    a, b, lst = await make_pair(ctx)
+    out = {}
+    with anyio.move_on_after(30) as scope:
+        async with anyio.create_task_group() as tg:
+            async def snd():
+                try:
+                    await a.send(pattern(0, big))
+                    out["send"] = "returned normally"
+                except Exception as e:  # noqa: BLE001
+                    out["send"] = type(e).__name__
+            tg.start_soon(snd)
+            await anyio.wait_all_tasks_blocked()
+            await anyio.sleep(0.05)
+            if "send" in out:
+                ctx.fact("send_lost_not_exhibited", True)
+            elif how == "local_close":
+                await a.aclose()
+            else:
+                await b.aclose()          # the peer goes away without having read: the connection is reset
+            t0 = time.time()
+            while "send" not in out and time.time() - t0 < 10:
+                await anyio.sleep(0.01)
+            if "send" not in out:
+                ctx.viol(name, "send() waiting on back-pressure is still blocked 10 s after the connection was closed / reset", params)
+                tg.cancel_scope.cancel()
+    if scope.cancelled_caught:
+        ctx.viol(name, "deadlock/timeout in send_lost scenario", params)
+    want = "ClosedResourceError" if how == "local_close" else "BrokenResourceError"
+    got = out.get("send")
+    if got == "returned normally" and not ctx.facts.get("send_lost_not_exhibited"):
+        ctx.viol(name, f"send() of {big} bytes returned normally although the stream was "
+                       f"{'closed locally by another task' if how == 'local_close' else 'reset by the peer'} while it waited "
+                       f"for the peer: the unsent data was discarded and success reported", params)
+    elif got is not None and got != want and got != "returned normally":
+        ctx.viol(name, f"send() interrupted by {how} raised {got} (expected {want})", params)
+    ctx.fact("send_lost", [how, got])
+    await a.aclose()
+    await b.aclose()
+    if lst is not None:
+        await lst.aclose()
+
+
 async def sc_close_pending(ctx, rng):
     """a receive() that is blocked when another task closes the stream locally ends with ClosedResourceError
     (the transport's connection_lost / the readiness future wakes it): it does not hang"""
@@ -562,7 +688,8 @@ async def main(ctx: Ctx, only=None):
         plan += [("sizes", sc_sizes, ("a->b",)), ("sizes", sc_sizes, ("b->a",))]
         plan += [("duplex", sc_duplex, ()), ("close", sc_close, ("a closes",)), ("close", sc_close, ("b closes",)),
                  ("busy", sc_busy, ()), ("close_pending", sc_close_pending, ()),
-                 ("eof_during_send", sc_eof_during_send, ())]
+                 ("eof_during_send", sc_eof_during_send, ()), ("close_both_parked", sc_close_both_parked, ()),
+                 ("send_lost", sc_send_lost, ("local_close",)), ("send_lost", sc_send_lost, ("peer_reset",))]
     for d in ("a->b", "b->a"):
         for mode in ("idle", "late_first_receive", "cancelled_receive"):
             if ctx.tier == "quick" and (d, mode) in (("a->b", "idle"), ("b->a", "late_first_receive")):
